@@ -19,6 +19,20 @@ import (
 	"github.com/smarthome-go/homescript/v3/homescript/runtime"
 )
 
+// triageHost resolves `import … from <name>` from $HMS_MODDIR/<name>.hms (if set).
+type triageHost struct {
+	TestingAnalyzerHost
+}
+
+func (h triageHost) ResolveCodeModule(name string) (string, bool, error) {
+	if dir := os.Getenv("HMS_MODDIR"); dir != "" {
+		if b, err := os.ReadFile(dir + "/" + name + ".hms"); err == nil {
+			return string(b), true, nil
+		}
+	}
+	return h.TestingAnalyzerHost.ResolveCodeModule(name)
+}
+
 func TestTriage(t *testing.T) {
 	b, err := os.ReadFile(os.Getenv("HMS_SRC"))
 	if err != nil {
@@ -29,7 +43,7 @@ func TestTriage(t *testing.T) {
 	modules, diagnostics, syntax := Analyze(
 		InputProgram{Filename: filename, ProgramText: src},
 		TestingAnalyzerScopeAdditions(),
-		TestingAnalyzerHost{IsInvokedInTests: true},
+		triageHost{TestingAnalyzerHost{IsInvokedInTests: true}},
 		true,
 	)
 	for _, s := range syntax {
